@@ -166,9 +166,39 @@ def _for_loop(lo, hi, body, init):
     raise Unsupported("for_loop with a symbolic trip count (needs a loop contract)")
 
 
+SOLVEF = z3.Function("solve_lin", I, z3.ArraySort(I, I, R), z3.ArraySort(I, R), z3.ArraySort(I, R))
+
+
+def _solve(Mx, rhs):
+    """dependency contract of the batched dense solve: y[bb] = solve(M[bb], rhs[bb]) as an atom of the matrix and the right-hand side
+    (lambda terms); what the solution satisfies (M y = rhs) is used by the property module, not here"""
+    if not (isinstance(Mx, IArr) and Mx.ndim == 3 and isinstance(rhs, IArr) and rhs.ndim == 3 and SInt.lift(rhs.shape[2]).concrete() == 1):
+        raise Unsupported("solve outside the batched (b, m, m) x (b, m, 1) form")
+    m = Mx.shape[1]
+
+    def fn(bb, i, z):
+        r, c = z3.Int("sr"), z3.Int("sc")
+        ml = z3.Lambda([r, c], one(Mx, bb, r, c))
+        vl = z3.Lambda([r], one(rhs, bb, r, z3.IntVal(0)))
+        return [Ent([], z3.Select(SOLVEF(iterm(m), ml, vl), i))]
+    return IArr((Mx.shape[0], m, 1), fn, np.promote_types(Mx.dtype, rhs.dtype))
+
+
+def _diag_marker(v, diagonal=0):
+    raise Unsupported("xnp.diag outside vmap")
+
+
+def _vmap(f, *a, **k):
+    if f is _diag_marker:
+        def batched_diag(p):
+            return IArr((p.shape[0], p.shape[1], p.shape[1]), lambda bb, r, c: [Ent([], z3.If(r == c, one(p, bb, r), z3.RealVal(0)))], p.dtype)
+        return batched_diag
+    raise Unsupported("vmap of a function other than diag")
+
+
 def activate(extra=None):
     names = dict(permute=_permute, expand=_expand, norm=_norm, sum=_sum, max=_max, any=_any, maximum=_maximum, clip=_clip, copy=_copy, abs=_abs,
-                 where=_where, ones_like=_ones_like, array=_array, for_loop=_for_loop, conj=lambda x: x.conj() if isinstance(x, IArr) else SScal.lift(x).conj(),
+                 where=_where, ones_like=_ones_like, solve=_solve, diag=_diag_marker, vmap=_vmap, array=_array, for_loop=_for_loop, conj=lambda x: x.conj() if isinstance(x, IArr) else SScal.lift(x).conj(),
                  sqrt=lambda x: IArr(x.shape, lambda *ix: [Ent([], RSQRT(one(x, *ix)))], x.dtype) if isinstance(x, IArr) else x)
     names.update(extra or {})
     saved = {nm: getattr(ifns, nm, None) for nm in names}
